@@ -533,8 +533,18 @@ def rule_postprocess_skips_runtime_copies(repo: Repo, rep, rule: str = "R12.6") 
         arg = GL.inline(c.args[0], stop=tuple(GL.params))
         sub = f"{gen.module.relpath}:generate `{norm(c)[:60]}`"
         ok = filters_runtime(arg, GL)
-        for h in [x for x in ast.walk(arg) if isinstance(x, ast.Call) and isinstance(x.func, ast.Attribute) and cls is not None and x.func.attr in cls.methods]:
-            hf = cls.methods[h.func.attr]
+        for h in [x for x in ast.walk(arg) if isinstance(x, ast.Call)]:
+            hn = h.func.attr if isinstance(h.func, ast.Attribute) else h.func.id if isinstance(h.func, ast.Name) else None
+            hf = (cls.methods.get(hn) if cls is not None and hn else None) or (gen.module.functions.get(hn) if hn else None)
+            if hf is None and cls is not None and hn:
+                # a thin class alias of a module function: `_without_runtime_copies = staticmethod(_module_function)`
+                for st in cls.node.body:
+                    if isinstance(st, ast.Assign) and any(isinstance(t, ast.Name) and t.id == hn for t in st.targets):
+                        tgt_names = [x.id for x in ast.walk(st.value) if isinstance(x, ast.Name) and x.id in gen.module.functions]
+                        if tgt_names:
+                            hf = gen.module.functions[tgt_names[0]]
+            if hf is None or hf is gen:
+                continue
             ok = ok or filters_runtime(hf.node, _L(hf.node))
         if ok:
             rep.ok(rule, sub, "the file list is filtered against the paths built from RUNTIME_FILES before the formatters run: the runtime copies stay byte-for-byte", gen.loc(c))
